@@ -61,5 +61,61 @@ def main():
     sys.exit(1 if fails else 0)
 
 
+def main_tables():
+    """table-level re-representations: rows permuted, indices relabelled, out-of-service elements added (also ahead of the others, next to a
+    line that ends at an out-of-service bus), a load split in two, a bus split into two fused buses"""
+    fails = []
+
+    def base(spare_first=None):
+        net = pp.create_empty_network()
+        b = pp.create_buses(net, 6, 20.)
+        pp.create_ext_grid(net, b[0], vm_pu=1.02)
+        if spare_first is True:
+            pp.create_line_from_parameters(net, b[0], b[2], 4., 0.12, 0.11, 250., 0.6, in_service=False)      # spare cable, out of service
+        for f, t in ((0, 1), (1, 2), (2, 3), (3, 4), (2, 5)):
+            pp.create_line_from_parameters(net, b[f], b[t], 3., 0.12, 0.11, 250., 0.6)
+        if spare_first is False:
+            pp.create_line_from_parameters(net, b[0], b[2], 4., 0.12, 0.11, 250., 0.6, in_service=False)
+        net.bus.at[b[5], "in_service"] = False                                                                 # energised spur to a dead bus
+        pp.create_load(net, b[2], 2., .5); pp.create_load(net, b[4], 3., .8); pp.create_sgen(net, b[3], 1., .1)
+        return net
+
+    def vm(net):
+        pp.runpp(net, tolerance_mva=1e-10)
+        return net.res_bus.vm_pu.sort_index().values, net.res_ext_grid.p_mw.sum()
+    ref_vm, ref_p = vm(base())
+
+    def cmp(name, net, sel=None):
+        v, p_ = vm(net)
+        v = v if sel is None else v[sel]
+        if len(v) != len(ref_vm) or not np.allclose(v, ref_vm, atol=1e-8, equal_nan=True) or abs(p_ - ref_p) > 1e-7:
+            fails.append(f"{name}: bus voltages / slack power differ from the reference representation (slack {p_:.6f} vs {ref_p:.6f} MW, "
+                         f"max |dvm| = {np.nanmax(np.abs(np.nan_to_num(v) - np.nan_to_num(ref_vm))) if len(v) == len(ref_vm) else float('nan'):.2e})")
+    cmp("out-of-service line appended as the last row", base(False))
+    cmp("out-of-service line as the first row", base(True))
+    n = base(False)
+    n.line = n.line.iloc[::-1]
+    cmp("rows of net.line reversed (out-of-service line first)", n)
+    n = base()
+    n.load = n.load.iloc[::-1]; n.bus = n.bus.iloc[[3, 0, 5, 1, 4, 2]]
+    cmp("rows of net.load and net.bus permuted", n)
+    n = base()
+    pp.create_load(n, 2, 0.8, 0.2); n.load.at[0, "p_mw"] = 1.2; n.load.at[0, "q_mvar"] = 0.3
+    cmp("load split in two at the same bus", n)
+    n = base()
+    extra = pp.create_bus(n, 20.)
+    pp.create_switch(n, 4, extra, "b", closed=True)
+    n.load.at[1, "bus"] = extra
+    cmp("load moved to a bus fused with its bus by a closed bus-bus switch", n, sel=slice(0, 6))
+    n = base()
+    pp.create_load(n, 1, 0., 0.); pp.create_sgen(n, 4, 5., 1., in_service=False); pp.create_load(n, 3, 4., 1., in_service=False)
+    cmp("zero-power and out-of-service elements added", n)
+    for f in fails:
+        print("REPRODUCED:", f)
+    if not fails:
+        print("not reproduced: results are invariant under the replayed table re-representations")
+    sys.exit(1 if fails else 0)
+
+
 if __name__ == "__main__":
     main()
